@@ -1,3 +1,4 @@
+import uuid
 from logging import getLogger
 from typing import List
 
@@ -40,9 +41,15 @@ class LabelScheduleSource(ScheduleSource):
                     continue
                 labels = schedule.get("labels", {})
                 labels.update(task.labels)
+                schedule_id = schedule.get("schedule_id")
+                if schedule_id is None:
+                    # The id must stay the same between calls,
+                    # otherwise the scheduler cannot recognise the schedule.
+                    schedule_id = schedule["schedule_id"] = uuid.uuid4().hex
                 schedules.append(
                     ScheduledTask(
                         task_name=task_name,
+                        schedule_id=schedule_id,
                         labels=labels,
                         args=schedule.get("args", []),
                         kwargs=schedule.get("kwargs", {}),
